@@ -457,6 +457,50 @@ func runExtract(c *Case, r *mon.Rec, rng *rand.Rand, payload []byte) {
 			}
 		}
 	}
+	// the same on a Registers view the caller configured with a default order of its own (WithByteOrder): every field read
+	// leaves that configuration as it found it, so a field reads the same alone and after any other field
+	ord := packet.ByteOrder(regref.Orders[1+rng.Intn(len(regref.Orders)-1)])
+	alone2 := map[string]string{}
+	for _, f := range fields {
+		_, v0, _, err := parsed(c, payload)
+		if err != nil {
+			return
+		}
+		v0.WithByteOrder(ord)
+		var v any
+		var e error
+		if p, _ := mon.Catch(func() { v, e = f.ExtractFrom(v0) }); p {
+			continue
+		}
+		alone2[f.Name] = show(v, e)
+	}
+	_, vs, _, err := parsed(c, payload)
+	if err == nil {
+		vs.WithByteOrder(ord)
+		for pass := 0; pass < 2; pass++ {
+			for k := range fields {
+				f := fields[k]
+				if pass == 1 {
+					f = fields[n-1-k]
+				}
+				want, ok := alone2[f.Name]
+				if !ok {
+					continue
+				}
+				var v any
+				var e error
+				if p, _ := mon.Catch(func() { v, e = f.ExtractFrom(vs) }); p {
+					continue
+				}
+				r.Eval(1)
+				if got := show(v, e); got != want {
+					r.Violate(c, "result-depends-on-history", mon.Attrs{"accessor": "Field.ExtractFrom/configured-view", "type": int(f.Type)},
+						fmt.Sprintf("Registers configured with WithByteOrder(%d): field %+v = %s after other fields were read, %s when read first", ord, f, got, want))
+					break
+				}
+			}
+		}
+	}
 	h := uint64(3)
 	for _, f := range fields {
 		h = mon.Mix(h, uint64(f.Type), uint64(int(f.Address)-c.Start), uint64(f.ByteOrder), uint64(f.Length))
